@@ -1,6 +1,6 @@
 <?php
-$a = [];
-try {
-  $a = $a+
-  echo "c";
-} catch (Exception $e) { }
+$a0 = [];
+$a0[] = 5;
+$a0 = $a0+
+echo "c:", 1, "\n";
+echo "d";
